@@ -2,6 +2,7 @@ import Ledger.Ctrl.SpecLink
 import Ledger.Proofs.CoreStore
 import Ledger.Proofs.CoreAccounts
 import Ledger.Proofs.CtrlHist
+import Ledger.Proofs.CtrlEval
 
 /-!
 The controller's store contract refines the abstract reference store
@@ -369,5 +370,126 @@ theorem exec_storeInv (now : Time) (c : Call) (hc : c.Live) (d : Db) (sq : Seqs)
       simp only [hf, Except.ok.injEq, Prod.mk.injEq] at h
       obtain ⟨_, rfl⟩ := h
       exact StoreInv_abs_of_eq rfl rfl (StoreInv_abs_modifyTx d sq id _ (fun x => by split <;> exact ⟨rfl, rfl⟩) inv)
+
+/-! ### the write path only makes `Live` calls -/
+
+theorem Prog.All.of_noCommit {α : Type} {p : Prog α} (h : p.All Call.LockOnly) : p.All Call.Live := by
+  induction h with
+  | pure a => exact .pure a
+  | fail e => exact .fail e
+  | call c k hc _ ih =>
+    refine .call c k ?_ ih
+    cases c <;> first | exact trivial | exact hc.elim
+
+theorem createBody_live (strict : Bool) (schema : Option Schema) (c : CreateIn) (m : Prog MachineResult)
+    (hm : m.All Call.Live) : (createBody strict schema c m).All Call.Live := by
+  unfold createBody
+  split
+  · exact .fail _
+  · refine Prog.All.bind hm (fun r => ?_)
+    split
+    · exact .fail _
+    · split
+      · exact .fail _
+      · exact .call _ _ ⟨rfl, rfl⟩ (fun tx => .call _ _ trivial (fun _ => .pure _))
+
+theorem revertBody_live (id : Nat) (force aed : Bool) (m : Meta) : (revertBody id force aed m).All Call.Live := by
+  unfold revertBody
+  refine .call _ _ trivial (fun r => ?_)
+  split
+  · exact .fail _
+  · refine .call _ _ trivial (fun bal => ?_)
+    simp only
+    split
+    · exact .fail _
+    · exact .call _ _ ⟨rfl, rfl⟩ (fun tx => .pure _)
+
+theorem body_live (strict : Bool) (kind : OpKind) (n : Nat) (schema : Option Schema) :
+    (body strict kind n schema).All Call.Live := by
+  cases kind with
+  | createP c ps force => exact createBody_live _ _ _ _ (Prog.All.of_noCommit (postingsMachine_lockOnly ps force))
+  | createS c obs => exact createBody_live _ _ _ _ (Prog.All.of_noCommit (scriptMachine_lockOnly obs n))
+  | revert id force aed m => exact revertBody_live id force aed m
+  | saveTxMeta id m => exact .call _ _ trivial (fun _ => .pure _)
+  | saveAccMeta a m =>
+    show (saveAccMetaBody schema a m).All Call.Live
+    unfold saveAccMetaBody
+    exact .call _ _ trivial (fun _ => .pure _)
+  | delTxMeta id key =>
+    refine .call _ _ trivial (fun r => ?_)
+    split
+    · exact .pure _
+    · exact .fail _
+  | delAccMeta a key => exact .call _ _ trivial (fun _ => .pure _)
+  | insertSchema version chart templates tplBad =>
+    simp only [body]
+    split
+    · exact .fail _
+    · split
+      · exact .fail _
+      · refine .call _ _ trivial (fun r => ?_)
+        split
+        · exact .pure _
+        · exact .fail _
+
+theorem runLog_live (strict : Bool) (kind : OpKind) (ik ihash sv : String) (n : Nat) :
+    (runLog strict kind ik ihash sv n).All Call.Live := by
+  unfold runLog
+  refine Prog.All.bind ?_ (fun schema => Prog.All.bind (body_live strict kind n schema) (fun p => ?_))
+  · unfold schemaPhase
+    split
+    · refine .call _ _ trivial (fun r => ?_)
+      split
+      · exact .pure _
+      · exact .call _ _ trivial (fun _ => .fail _)
+    · split
+      · refine .call _ _ trivial (fun latest => ?_)
+        split
+        · exact .fail _
+        · exact .pure _
+      · exact .pure _
+  · unfold logPhase
+    have hins : (Prog.call (Call.insertLog { payload := p, ik := ik, ihash := ihash, schemaVersion := sv }) Prog.pure).All
+        Call.Live := .call _ _ trivial (fun l => .pure l)
+    cases schema with
+    | none => simpa using hins
+    | some sc =>
+      simp only
+      split
+      · exact .fail _
+      · exact hins
+
+/-! ### programs, operations, histories -/
+
+theorem run_storeInv {α : Type} (now : Time) (hn : String) (f : Faults) (p : Prog α) (hp : p.All Call.Live) (st : RunSt)
+    (inv : Spec.StoreInv (abs ⟨st.db, st.seq⟩)) :
+    Spec.StoreInv (abs ⟨(run now hn f p st).2.db, (run now hn f p st).2.seq⟩) := by
+  have := run_rel now hn f Call.Live
+    (fun x y => Spec.StoreInv (abs ⟨x.1, x.2⟩) → Spec.StoreInv (abs ⟨y.1, y.2⟩))
+    (fun _ h => h) (fun _ _ _ h1 h2 h => h2 (h1 h))
+    (fun c d sq hc => ⟨fun sq' e he inv => (exec_storeInv now c hc d sq inv).1 sq' e he,
+                       fun sq' r d' he inv => (exec_storeInv now c hc d sq inv).2 sq' r d' he⟩)
+    p hp st
+  exact this inv
+
+/-- Every write operation — failing, dry-run, idempotent, faulted or committed —
+    keeps the Spec invariant of the abstracted tables. -/
+theorem forgeLog_storeInv (strict : Bool) (op : Op) (f : Faults) (cf : Bool) (s : State)
+    (inv : Spec.StoreInv (abs s)) : Spec.StoreInv (abs (forgeLog strict op f cf s).state) := by
+  rcases forgeLog_ending strict op f cf s with ⟨hu, _, _⟩ | ⟨st0, st, log, hn, f', n, _, h0, _, hrun, hc⟩
+  · exact StoreInv_abs_of_eq (d := s.db) (sq := s.seq) (by rw [hu]) (by rw [hu]) inv
+  · have := run_storeInv op.now hn f' _ (runLog_live strict op.kind op.ik op.ihash op.sv n) st0
+      (StoreInv_abs_of_eq (d := s.db) (sq := s.seq) (by rw [h0]) (by rw [h0]) inv)
+    rw [hrun] at this
+    rw [hc.1]
+    exact this
+
+theorem runHist_storeInv (strict : Bool) (s : State) (ops : List Op) (inv : Spec.StoreInv (abs s)) :
+    Spec.StoreInv (abs (runHist strict s ops)) := by
+  induction ops generalizing s with
+  | nil => exact inv
+  | cons op r ih => exact ih _ (forgeLog_storeInv strict op [] false s inv)
+
+theorem StoreInv_abs_empty : Spec.StoreInv (abs {}) := Spec.StoreInv_empty
 
 end Ledger.Ctrl
